@@ -11,9 +11,12 @@ that the 128-slot ring of `InputQueue` implements exactly that stream for EVERY 
 operations (the ring wraps arbitrarily often), that `add_input` reports the frame the
 specification assigns, and that the fill inputs `set_frame_delay` reports — the ones the session
 forwards to remote peers — are exactly the entries the queue itself stores: owner and remotes see
-the same stream.
+the same stream. `C11_owner_sends_queue` (Proofs/Glue.lean) is the session-level half for runs without
+delay changes: whatever `register_local_inputs` hands to the remote endpoints is the owners' own
+queue content, frame after frame.
 -/
 import GgrsModel.Proofs.Queue
+import GgrsModel.Proofs.Glue
 
 namespace Ggrs
 
@@ -205,5 +208,28 @@ theorem C11_ring_value (q : InputQueue) (s : QSpec) (h : Refines q s) (k : Nat)
 /-! Non-vacuity: the empty queue refines the empty stream, and a concrete delay script. -/
 example : Refines InputQueue.new {} := refines_new
 example : ((({} : QSpec).submit 0 7).1.setDelay 2).2 = [⟨1, 7⟩, ⟨2, 7⟩] := by decide
+
+end Ggrs
+
+namespace Ggrs
+
+/-- **C11/C05, the owner's side (rollback mode, no disconnected players, configured delays).** After
+ANY interleaving of remote-input arrivals and `advance_frame` calls, one more call hands its remote
+endpoints (`Sends`: one `send_input` + `send_all_messages` per endpoint and frame) only frames taken
+from the outgoing queue, each — once something has been sent — the frame right after the last one
+sent and complete for every local player, and each entry is exactly the input the named local
+player's own queue holds for that frame (`gh2.specs`: the streams after this call's submissions,
+which extend the streams before it) — the blank frames in front of a delayed first input
+included. So the stream a remote peer is sent is the owner's queue, frame by frame. -/
+theorem C11_owner_sends_queue (x y : P2P × TLState) (h0 : ∃ gh, SessInv x.1 gh x.2 [] ∧ GlueInv x.1 gh)
+    (hrun : SStar x y) (now : Nat) (s' : P2P) (reqs' : List Request)
+    (hadv : y.1.advanceRollbackFrame now [] = .ok (s', reqs')) :
+    ∃ (gh gh2 gh' : Ghost) (sA sB : P2P), SessInv y.1 gh y.2 [] ∧ SessInv s' gh' y.2 reqs' ∧ gh'.specs = gh2.specs ∧
+      (∀ p, PrefixOf (gh.specs p).vals (gh2.specs p).vals) ∧
+      sA.lastSentOutgoingInputFrame = y.1.lastSentOutgoingInputFrame ∧ Sends gh2 now sA sB ∧
+      s'.lastSentOutgoingInputFrame = sB.lastSentOutgoingInputFrame := by
+  obtain ⟨gh, hy, hgy⟩ := GlueInv_run x y h0 hrun
+  obtain ⟨gh2, gh', sA, sB, hinv', _, hsp, hpre, hlA, hs, hlB⟩ := rollbackTick_glue y.1 s' gh y.2 [] reqs' now hy hgy hadv
+  exact ⟨gh, gh2, gh', sA, sB, hy, hinv', hsp, hpre, hlA, hs, hlB⟩
 
 end Ggrs
